@@ -198,6 +198,29 @@ def message_unit(v, name, res, tier):
                 res.violation('standard-affected|%s|%s|%s' % (ename, v, name), 'the standard run already reports %r' % in_std[:1], pt, 2)
                 continue
             res.classes['edit-observed:%s' % ename] += 1
+            if ename == 'min1' and len(path) == 1 and cls == 'SEG':
+                # a message created with the profile and then given its content as text is still judged by the profile
+                # (only for an optional top-level segment made required: there the parsed tree is the built one)
+                res.evaluations += 1
+                res.transitions += 2
+                try:
+                    vm = Message(name, version=v, reference=eprof)
+                    vm.value = text
+                    e_val = errs(vm)
+                except Exception as e:
+                    if common.is_lib_exc(e):
+                        res.dims['value-assignment path refused by the library (%s)' % exc_class(e)] += 1
+                        e_val = None
+                    else:
+                        res.violation('edit-raises|value-assignment|%s|%s' % (ename, exc_class(e)), 'Message(reference=profile).value = text: %s: %s' % (exc_class(e), e), pt, 2)
+                        e_val = None
+                if e_val is not None:
+                    if not [t for t in e_val if marker in t]:
+                        res.violation('profile-ignored|value-assignment|%s|%s|%s' % (ename, v, name),
+                                      '%s edit at %s of %s (v%s): after message.value = text validation no longer reports %r (errors %r)'
+                                      % (ename, '/'.join(path), name, v, marker, e_val[:3]), pt, 2)
+                    else:
+                        res.classes['profile-kept-after-value-assignment'] += 1
             # STRICT construction follows the profile too
             if ename in ('max1', 'remove'):
                 res.evaluations += 1
@@ -286,6 +309,96 @@ def host(v, seg):
     return _HOSTS[v].get(seg)
 
 
+def component_level(v, seg, name, ref, spath, res, point):
+    """edits *inside* a field whose datatype the profile keeps: a leaf component's datatype swapped, a component made
+    required.  The standard structure of the same field is instantiated first (what an earlier use leaves behind must
+    not reach the profile run)."""
+    from hl7apy.core import Message
+    from hl7apy.parser import parse_message
+
+    def nav(m):
+        e = m
+        for p in spath:
+            e = getattr(e, p.lower())
+        return e
+    done = 0
+    for idx, fr in tables.field_rows(v, seg):
+        if fr.kind == 'leaf' or not fr.ok:
+            continue
+        cands = [c for c in fr.children if c.kind == 'leaf' and c.datatype in ('ST', 'ID', 'IS', 'NM', 'SI') and c.card[1] != 0]
+        if not cands:
+            continue
+        cr = cands[0]
+        new_dt = 'NM' if cr.datatype != 'NM' else 'ST'
+        done += 1
+        if done > 3:
+            break
+
+        def swap(c, new_dt=new_dt):
+            r = list(c[1])
+            r[2] = new_dt
+            return (c[0], tuple(r), c[2], c[3])
+
+        def require(c):
+            return (c[0], c[1], (1, c[2][1] if c[2][1] != 0 else 1), c[3])
+        pt = dict(point, field=fr.name, component=cr.name)
+        res.enumerated += 1
+        res.states += 1
+        res.nontrivial += 1
+        try:
+            # the standard structure first
+            std0 = Message(name, version=v)
+            getattr(getattr(nav(std0), fr.name.lower()), cr.name.lower()).datatype
+            setattr(getattr(nav(std0), fr.name.lower()), cr.name.lower(), '12')
+            std0.msh.msh_9 = msh9_text(v, name)
+            text = std0.to_er7()
+            eprof = {name: edit_path(ref, spath + (fr.name, cr.name), swap)}
+            obs = {}
+            m = Message(name, version=v, reference=eprof)
+            obs['traversal-read'] = getattr(getattr(nav(m), fr.name.lower()), cr.name.lower()).datatype
+            setattr(getattr(nav(m), fr.name.lower()), cr.name.lower(), '12')
+            obs['traversal-write'] = getattr(getattr(nav(m), fr.name.lower()), cr.name.lower())[0].datatype
+            m = Message(name, version=v, reference=eprof)
+            par = m
+            for g in spath[:-1]:
+                par = par.add_group(g)
+            obs['add-helpers'] = par.add_segment(seg).add_field(fr.name).add_component(cr.name).datatype
+            pm = parse_message(text, message_profile=eprof, validation_level=TOLERANT)
+            obs['parse'] = getattr(getattr(nav(pm), fr.name.lower()), cr.name.lower())[0].datatype
+            obs['standard'] = getattr(getattr(nav(std0), fr.name.lower()), cr.name.lower())[0].datatype
+            # a component made required by the profile: validation of a field without it
+            rprof = {name: edit_path(ref, spath + (fr.name, cr.name), require)}
+            others = [c for c in fr.children if c.name != cr.name and c.kind == 'leaf' and c.card[1] != 0]
+            need = None
+            if cr.card[0] == 0 and others:
+                rm = Message(name, version=v, reference=rprof)
+                setattr(getattr(nav(rm), fr.name.lower()), others[0].name.lower(), 'x')
+                sm = Message(name, version=v)
+                setattr(getattr(nav(sm), fr.name.lower()), others[0].name.lower(), 'x')
+                marker = 'Missing required child %s.%s' % (fr.name, cr.name)
+                need = (any(marker in t for t in errs(rm)), any(marker in t for t in errs(sm)))
+        except Exception as e:
+            res.violation('component-edit-raises|%s|%s|%s' % (v, seg, exc_class(e)), 'component-level edit of %s.%s in %s (v%s): %s: %s' % (fr.name, cr.name, name, v, exc_class(e), e), pt, 3)
+            continue
+        res.evaluations += 6
+        res.transitions += 12
+        res.validated += 5
+        for how in ('traversal-read', 'traversal-write', 'add-helpers', 'parse'):
+            if obs[how] != new_dt:
+                res.violation('profile-ignored|component-datatype|%s|v%s' % (how, v), '%s.%s of %s (v%s, host %s): created through %s has datatype %s, the profile says %s'
+                              % (fr.name, cr.name, seg, v, name, how, obs[how], new_dt), pt, 3)
+            else:
+                res.classes['component-datatype-from-profile:' + how] += 1
+        if obs['standard'] != cr.datatype:
+            res.violation('standard-affected|component-datatype|%s' % v, 'standard run shows %s for %s' % (obs['standard'], cr.name), pt, 3)
+        if need is not None:
+            if need != (True, False):
+                res.violation('profile-ignored|component-required|v%s' % v, '%s.%s made required by the profile (v%s, %s): reported by profile run %s, by standard run %s'
+                              % (fr.name, cr.name, v, name, need[0], need[1]), pt, 3)
+            else:
+                res.classes['component-required-from-profile'] += 1
+
+
 def msh9_text(v, name):
     parts = (name.split('_') + ['A01', ''])[:2]
     n = len(dict(tables.field_rows(v, 'MSH'))[9].children)
@@ -353,6 +466,10 @@ def field_unit(v, seg, res):
                 par = par.add_group(g)
             setattr(par, seg.lower(), refmodel.enc_segment(seg, {idx: ['12']}, ec))
             observed['text-assignment'] = getattr(getattr(par, seg.lower()), fr.name.lower())[0].datatype
+            # (e) the whole message assigned as text
+            m = Message(name, version=v, reference=eprof)
+            m.value = text
+            observed['message-value'] = getattr(nav(m), fr.name.lower())[0].datatype
             # standard run keeps the standard datatype
             observed['standard'] = getattr(nav(std), fr.name.lower())[0].datatype
         except Exception as e:
@@ -361,7 +478,7 @@ def field_unit(v, seg, res):
         res.evaluations += 6
         res.transitions += 12
         res.validated += 5
-        for how in ('traversal-read', 'traversal-write', 'add-helpers', 'parse', 'text-assignment'):
+        for how in ('traversal-read', 'traversal-write', 'add-helpers', 'parse', 'text-assignment', 'message-value'):
             if observed[how] != new_dt:
                 res.violation('profile-ignored|datatype|%s|%s' % (how, 'v' + v), '%s of %s (v%s, host %s): created through %s has datatype %s, the profile says %s'
                               % (fr.name, seg, v, name, how, observed[how], new_dt), pt, 3)
@@ -390,6 +507,7 @@ def field_unit(v, seg, res):
                     res.classes['strict-value-follows-profile'] += 1
             except Exception:
                 res.dims['strict value path not buildable'] += 1
+    component_level(v, seg, name, ref, spath, res, point)
     res.dims['segments (field level)'] += 1
 
 
